@@ -43,7 +43,7 @@ def run(ctx):
         raise vlib.Undecided("the implementation-shaped configuration no longer exhibits DropWhenFull")
     env = envelope(ctx)
     traces = ctx.path("traces.ndjson")
-    p = vlib.run_harness(ctx, binary, ["agwpe", "--out", traces, "--n", "30" if ctx.tier == "quick" else "600"], timeout=6000)
+    p = vlib.run_harness(ctx, binary, ["agwpe", "--out", traces, "--n", "30" if ctx.tier == "quick" else "1500"], timeout=6000)
     if p.returncode != 0:
         raise vlib.Undecided("agwpe harness failed: rc=%d %s" % (p.returncode, p.stderr[-3000:]))
     st = json.loads(p.stdout.strip().splitlines()[-1])
